@@ -37,8 +37,8 @@ Init ==
   \/ \E p \in Tok, ty \in 1..2, s \in 1..2, pr \in 1..5, ex \in SUBSET {1, 2} : case = V("PackageListEntry", <<p, ty, s, pr, IF 1 \in ex THEN 1 ELSE 0, IF 2 \in ex THEN 1 ELSE 0>>)
   \/ \E h \in 1..2, n \in Int, s \in 1..2, pr \in 1..5, fn \in Tok : case = V("changes::File", <<h, n, s, pr, fn>>)
   \/ \E neg \in 0..1, n \in 1..4 : case = V("BuildProfile", <<neg, n>>)
-  \/ \E kind \in 1..3, u \in 1..4 : case = V("Forwarded", <<kind, u>>)
-  \/ \E ty \in {"Origin", "AppliedUpstream"} : \E kind \in 1..2, u \in 1..4 : case = V(ty, <<kind, u>>)
+  \/ \E kind \in 1..3, u \in 1..7 : case = V("Forwarded", <<kind, u>>)
+  \/ \E ty \in {"Origin", "AppliedUpstream"} : \E kind \in 1..2, u \in 1..7 : case = V(ty, <<kind, u>>)   \* (payloads 5-7 carry another variant's marker inside)
   \/ \E u \in 1..5, b \in Opt(1..2), sp \in Opt(1..4) : case = V("ParsedVcs", <<u, b, sp>>)
   \/ \E name \in 1..5, u \in 1..5, b \in Opt(1..2), sp \in Opt(1..4) : case = V("Vcs", <<name, u, b, sp>>)
   \/ \E kind \in 1..3, n \in 1..2, t \in 1..4 : case = V("License", <<kind, n, t>>)
